@@ -2,6 +2,8 @@
 package main
 
 import (
+	"runtime/debug"
+	"encoding/json"
 	"flag"
 	"fmt"
 	"os"
@@ -66,6 +68,16 @@ func main() {
 		} else {
 			fw.DumpFunc(prog, os.Args[2])
 		}
+	case "gen-params":
+		// writes the reference parameter table (props/refparams.json) from the tree at --repo
+		repo := envOr("GMSL_REPO", "/repo")
+		prog, err := fw.Load(fw.LoadOpts{Dir: repo})
+		if err != nil {
+			fmt.Println(err)
+			os.Exit(2)
+		}
+		b, _ := json.MarshalIndent(fw.DumpParams(prog), "", " ")
+		fmt.Println(string(b))
 	case "inline-dump":
 		// debugging aid: gmslverif inline-dump <func name substring> [--repo dir]: the inlined view of a function
 		if len(os.Args) < 3 {
@@ -204,6 +216,9 @@ func run(id, tier, repo, verif string) (code int) {
 	func() {
 		defer func() {
 			if r := recover(); r != nil {
+				if os.Getenv("GMSL_DEBUG") != "" {
+					debug.PrintStack()
+				}
 				c.Fail("internal", "analyser panic", "", fmt.Sprint(r))
 			}
 		}()
